@@ -20,6 +20,7 @@ struct S {
     next_tx: u32,
     snaps: BTreeMap<String, DbSnapshot>,
     writer: Option<Worker<String>>,
+    compactor: Option<Worker<String>>,
     readers: BTreeMap<String, Worker<DbSnapshot>>,
 }
 
@@ -27,6 +28,9 @@ impl Drop for S {
     fn drop(&mut self) {
         sched::ctl().reset();
         if let Some(w) = self.writer.take() {
+            let _ = w.join();
+        }
+        if let Some(w) = self.compactor.take() {
             let _ = w.join();
         }
         for (_, r) in std::mem::take(&mut self.readers) {
@@ -125,6 +129,34 @@ impl State for S {
                     }
                 }
             }
+            ["compact_bg"] => {
+                // compact() on another thread while (possibly) a writer sits inside commit holding the writer lock
+                let Some(db) = self.db.clone() else { return "bad-op".into() };
+                if self.compactor.is_some() {
+                    return "bad-op".into();
+                }
+                let w = ctl.spawn("K", None, move || match db.compact() {
+                    Ok(()) => "ok".to_string(),
+                    Err(_) => "err".to_string(),
+                });
+                match ctl.wait("K", sched::BLOCK_DETECT) {
+                    Wait::Finished => w.join().unwrap_or_else(|_| "PANIC".into()),
+                    _ => {
+                        self.compactor = Some(w);
+                        "blocked".into()
+                    }
+                }
+            }
+            ["compact_join"] => match self.compactor.take() {
+                Some(w) => {
+                    if self.writer.is_some() {
+                        self.compactor = Some(w);
+                        return "writer-busy".into();
+                    }
+                    w.join().unwrap_or_else(|_| "PANIC".into())
+                }
+                None => "no-compactor".into(),
+            },
             ["resume"] => match self.writer.take() {
                 Some(w) => {
                     ctl.release("W");
@@ -211,7 +243,7 @@ fn generate(rng: &mut Rng, n: usize, _tier: &str, out: &mut dyn Write) {
         let mut txs = 0;
         let mut runs = 0; // published runs (spec view), to issue `compact` only when it does something
         for _ in 0..len {
-            match rng.below(12) {
+            match rng.below(13) {
                 0..=2 if txs < 6 => {
                     writeln!(out, "tx").unwrap();
                     txs += 1;
@@ -243,6 +275,21 @@ fn generate(rng: &mut Rng, n: usize, _tier: &str, out: &mut dyn Write) {
                     writeln!(out, "resume").unwrap();
                     writeln!(out, "read {}", name).unwrap();
                     live.push(name);
+                    runs = 0;
+                }
+                11 if txs < 6 => {
+                    // compact() starts on another thread while a writer is inside commit (it holds the writer lock);
+                    // afterwards a fresh snapshot must show every committed transaction
+                    writeln!(out, "tx_until {}", rng.pick(COMMIT_POINTS)).unwrap();
+                    writeln!(out, "compact_bg").unwrap();
+                    writeln!(out, "resume").unwrap();
+                    writeln!(out, "compact_join").unwrap();
+                    nsnap += 1;
+                    let name = format!("s{}_{}", case, nsnap);
+                    writeln!(out, "snap {}", name).unwrap();
+                    writeln!(out, "read {}", name).unwrap();
+                    live.push(name);
+                    txs += 1;
                     runs = 0;
                 }
                 7 if txs < 6 => {
